@@ -177,6 +177,21 @@ def fam_tag(fam):
     return int(fam[0]) * 256 + int(fam[1])
 
 
+def v4_safis():
+    """Which SAFIs of AFI ipv4 messages() packs into the plain IPv4 fields: read from its source, fail closed."""
+    import inspect
+
+    from exabgp.bgp.message.update.collection import UpdateCollection
+    from exabgp.protocol.family import SAFI
+
+    src = inspect.getsource(UpdateCollection.messages)
+    if src.count('is_v4 = is_v4 and nlri.safi in [SAFI.unicast, SAFI.multicast]') == 2:
+        return (SAFI.unicast, SAFI.multicast)
+    if src.count('is_v4 = is_v4 and nlri.safi == SAFI.unicast') == 2:
+        return (SAFI.unicast,)
+    raise RuntimeError('UpdateCollection.messages: the IPv4/MP classification is not one of the known forms')
+
+
 def abstract(case):
     """The inputs of the packing loops, as the code prepares them: sort, negotiated-family filter,
     IPv4/MP classification, MP family order, next-hop key (real _encode_nexthop), packed sizes."""
@@ -185,13 +200,14 @@ def abstract(case):
 
     sess, ann, wd, _ = build(case)
     neg = sess.neg
+    plain = v4_safis()
     v4a, v4w, mpa, mpw = [], [], {}, {}
     for routed in sorted(ann, key=lambda r: r.nlri):
         nlri, nh = routed.nlri, routed.nexthop
         fam = nlri.family().afi_safi()
         if fam not in neg.families:
             continue
-        if nlri.afi == AFI.ipv4 and nlri.safi in (SAFI.unicast, SAFI.multicast) and nh.afi == AFI.ipv4:
+        if nlri.afi == AFI.ipv4 and nlri.safi in plain and nh.afi == AFI.ipv4:
             v4a.append(nlri)
         else:
             mpa.setdefault(fam, []).append(routed)
@@ -199,7 +215,7 @@ def abstract(case):
         fam = nlri.family().afi_safi()
         if fam not in neg.families:
             continue
-        if nlri.afi == AFI.ipv4 and nlri.safi in (SAFI.unicast, SAFI.multicast):
+        if nlri.afi == AFI.ipv4 and nlri.safi in plain:
             v4w.append(nlri)
         else:
             mpw.setdefault(fam, []).append(nlri)
@@ -343,7 +359,7 @@ def oracle(case, res):
         p = bytes(r.nlri.pack_nlri(neg))
         k = (fam_tag(fam), p.hex(), bytes(r.nexthop.pack_ip()).hex())
         want_ann.add(k)
-        v4 = r.nlri.afi == AFI.ipv4 and r.nlri.safi in (SAFI.unicast, SAFI.multicast) and r.nexthop.afi == AFI.ipv4
+        v4 = r.nlri.afi == AFI.ipv4 and r.nlri.safi == SAFI.unicast and r.nexthop.afi == AFI.ipv4
         from exabgp.bgp.message.update.nlri.collection import MPNLRICollection
 
         nhl = 0 if v4 else len(MPNLRICollection([], {}, fam[0], fam[1])._encode_nexthop(r.nexthop, fam, neg))
@@ -355,17 +371,27 @@ def oracle(case, res):
         p = bytes(n.pack_nlri(neg))
         k = (fam_tag(fam), p.hex())
         want_wd.add(k)
-        v4 = n.afi == AFI.ipv4 and n.safi in (SAFI.unicast, SAFI.multicast)
+        v4 = n.afi == AFI.ipv4 and n.safi == SAFI.unicast
         fit_w[k] = len(p) <= room if v4 else attr_len(3 + len(p)) <= room
     extra_a, extra_w = set(got_ann) - want_ann, set(got_wd) - want_wd
     famname = lambda t: f'{t // 256}/{t % 256}'  # noqa: E731
+    UNI, MCAST = 257, 258
+    as_uni_a = {k for k in extra_a if k[0] == UNI and (MCAST,) + k[1:] in want_ann}
+    as_uni_w = {k for k in extra_w if k[0] == UNI and (MCAST,) + k[1:] in want_wd}
+    if as_uni_a or as_uni_w:
+        fails.append(('ipv4-multicast-sent-as-unicast', f'{len(as_uni_a)} announces / {len(as_uni_w)} withdraws of ipv4 multicast '
+                      'are carried in the plain IPv4 fields, i.e. sent as ipv4 unicast (RFC 4760: MP_REACH/MP_UNREACH)'))
+        extra_a, extra_w = extra_a - as_uni_a, extra_w - as_uni_w
+        want_ann = {k for k in want_ann if (UNI,) + k[1:] not in as_uni_a}
+        want_wd = {k for k in want_wd if (UNI,) + k[1:] not in as_uni_w}
     if extra_a or extra_w:
         tags = ','.join(sorted({famname(k[0]) for k in extra_a | extra_w}))
         fails.append((f'extra:{tags}', f'messages carry routes that were not requested (afi/safi {tags}): '
                       f'{sorted(extra_a)[:2]} {sorted(extra_w)[:2]}'))
+    mcast = bool(as_uni_a or as_uni_w)  # already reported; the fit judgements below assume RFC 4760 placement
     all_fit = all(fit_a.values()) and all(fit_w.values()) and room > 0
     none_fit = not any(fit_a.values()) and not any(fit_w.values())
-    if all_fit:
+    if all_fit and not mcast:
         miss_a, miss_w = want_ann - set(got_ann), want_wd - set(got_wd)
         if miss_a or miss_w:
             kind = 'announce' if miss_a else 'withdraw'
@@ -374,7 +400,7 @@ def oracle(case, res):
                 tags = 'after-exception'
             fails.append((f'lost:{kind}:{tags}', f'{len(miss_a)} announces / {len(miss_w)} withdraws requested (afi/safi {tags}), '
                           f'every one fits on its own in the {room} bytes left by the attributes, but they are in no message'))
-    if none_fit and (want_ann or want_wd) and res['msgs']:
+    if none_fit and not mcast and (want_ann or want_wd) and res['msgs']:
         fails.append(('message-without-room', f'no prefix fits the {room} bytes left, yet {len(res["msgs"])} message(s) produced'))
     return fails, {'room': room, 'all_fit': all_fit, 'none_fit': none_fit and bool(want_ann or want_wd)}
 
@@ -653,10 +679,6 @@ def gen_fill(rng, M, key):
         d = route(px, 'ipv6 unicast', 9, rng, nh=NH6[0])
         if d:
             ann.append(d)
-    if shape == 'mixed' and rng.random() < 0.2:  # IPv4 prefix with an IPv6 next hop goes through MP_REACH
-        d = route(px, 'ipv4 unicast', 4, rng, nh=NH6[0])
-        if d and key != 'v4only':
-            ann.append(d)
     rng.shuffle(ann)
     return {'sess': key, 'M': M, 'attr': attr, 'ann': ann, 'wd': wd, 'kind': 'fill:' + shape}
 
@@ -684,6 +706,11 @@ WITNESSES = [
     {'sess': 'v4v6', 'M': 4096, 'attr': ['room', 100], 'kind': 'witness:unreach-raises-with-room',
      'ann': [r6('2001:db8::', 64, nh='2001:db8::1')] + [r6(f'2001:db8:{i:x}::', 64) for i in range(1, 8)],
      'wd': [r6('2001:db9::', 32)]},
+    {'sess': 'all', 'M': 4096, 'attr': ['room', 18], 'kind': 'witness:unreach-4100', 'ann': [],
+     'wd': [{'f': 'ipv4 mpls-vpn', 'ip': '0.0.0.0', 'mask': 0, 'nh': NH4, 'rd': '65000:1', 'label': 100},
+            {'f': 'ipv4 mpls-vpn', 'ip': '10.0.0.1', 'mask': 32, 'nh': NH4, 'rd': '65000:1', 'label': 100}]},
+    {'sess': 'all', 'M': 4096, 'attr': ['room', 20], 'kind': 'witness:mixed-raises-with-room',
+     'ann': [r4('10.0.0.0', 23), {'f': 'ipv4 nlri-mpls', 'ip': '10.1.0.1', 'mask': 32, 'nh': NH4, 'label': 100}], 'wd': []},
     {'sess': 'v4v6', 'M': 4096, 'attr': ['glen', 10], 'kind': 'witness:v4-repeated-in-mp',
      'ann': [r4('10.0.0.0', 24), r6('2001:db8::', 48)], 'wd': [r4('10.9.0.0', 16)]},
 ]
@@ -834,7 +861,7 @@ def check(tier, seed):
         res = run_impl(small)
         f2, _ = oracle(small, res)
         what2 = next((w for s, w in f2 if s == sig), what)
-        run.fail_case('D12:' + sig, what2, describe(small, res))
+        run.fail_case(sig, what2, describe(small, res))
 
     dist = collections.Counter(c['kind'] for c in cases)
     nmsg = collections.Counter(min(len(r['msgs']), 6) for r in out['ress'])
@@ -847,7 +874,7 @@ def check(tier, seed):
         'rule': 'D12 witnesses + replays; boundary collections (1-4 NLRIs sized around what a room of 0..64 bytes admits, per path: '
                 'IPv4 announce/withdraw, MP_REACH, MP_UNREACH, both, mixed with IPv4; 5 sessions incl. ADD-PATH; both maxima); '
                 'fill collections (enough routes for 1-3 messages, attributes 0..300 bytes or room 65..400, several next hops, '
-                'IPv4/MP/mixed/withdraw shapes, non-negotiated family, IPv4 prefix with IPv6 next hop). '
+                'IPv4/MP/mixed/withdraw shapes, non-negotiated family). '
                 'non-trivial = distinct (msg_size, attr length, abstract size lists) with at least one route of a negotiated family',
         'distribution': dict(sorted(dist.items())),
         'messages_per_case_histogram': {str(k): v for k, v in sorted(nmsg.items())},
